@@ -126,6 +126,80 @@ def render_text(doc, width):
     return ''.join(out)
 
 
+# -- the tree with everything Typst treats as layout discarded (C01's oracle on real parses) -----------------------------------------
+
+NORM_DROP = ('Space', 'Parbreak', 'Comma', 'LineComment', 'BlockComment', 'RawTrimmed')
+OPTIONAL_PAREN_OWNERS = ('Params', 'ModuleImport', 'ImportItems')
+
+
+def norm_tree(t, parent=None):
+    """nested tuples: whitespace tokens, commas, comments and statement-ending semicolons dropped; grouping parentheses and braces around a single
+    expression unwrapped; optional parentheses of closure parameters and import items dropped; a raw element reduced to delimiter and language
+    (its text is C10's subject); an equation keeps whether it is a block (blank behind the opening dollar)"""
+    kind, x = t
+    pending = False
+    if not isinstance(x, list):
+        if kind in NORM_DROP:
+            return None
+        if kind == 'Semicolon' and parent not in ('Args', 'Math', 'MathDelimited'):
+            return None
+        if kind in ('LeftParen', 'RightParen') and parent in OPTIONAL_PAREN_OWNERS:
+            return None
+        if kind == 'Colon' and parent == 'Dict':
+            return None
+        return (kind, x)
+    if kind == 'Markup':
+        # words separated by one blank are one Text token, by several blanks several tokens: runs of words on a line are compared as one text
+        x2 = []
+        run = None
+        for c in x:
+            if c[0] == 'Text':
+                run = c[1] if run is None else (run + ' ' + c[1] if pending else run + c[1])
+                pending = False
+                continue
+            if c[0] == 'Space' and run is not None and not any(ord(ch) in T.TYPST_NEWLINES for ch in c[1]):
+                pending = True
+                continue
+            if run is not None:
+                x2.append(('Text', run))
+                run = None
+            pending = False
+            x2.append(c)
+        if run is not None:
+            x2.append(('Text', run))
+        x = x2
+    kids = [norm_tree(c, kind) for c in x]
+    kids = [k for k in kids if k is not None]
+    if kind == 'Parenthesized':
+        inner = [k for k in kids if k[0] not in ('LeftParen', 'RightParen')]
+        if len(inner) == 1:
+            return inner[0]
+    if kind == 'CodeBlock':
+        inner = [k for k in kids if k[0] not in ('LeftBrace', 'RightBrace')]
+        if len(inner) == 1 and inner[0][0] == 'Code' and len(inner[0][1]) == 1:
+            return inner[0][1][0]
+    if kind == 'Raw':
+        return ('Raw', tuple(k for k in kids if k[0] in ('RawDelim', 'RawLang')))
+    if kind == 'Equation':
+        block = len(x) > 1 and x[1][0] == 'Space'
+        return ('Equation', block, tuple(kids))
+    return (kind, tuple(kids))
+
+
+def first_difference(a, b, path='root'):
+    if a == b:
+        return None
+    if not (isinstance(a, tuple) and isinstance(b, tuple)) or a[0] != b[0] or not isinstance(a[-1], tuple) or not isinstance(b[-1], tuple):
+        return '%s: %s vs %s' % (path, str(a)[:80], str(b)[:80])
+    ka, kb = a[-1], b[-1]
+    for i, (x, y) in enumerate(zip(ka, kb)):
+        if x != y:
+            return first_difference(x, y, '%s/%s[%d]' % (path, a[0], i))
+    if len(ka) != len(kb):
+        return '%s/%s: %d vs %d children (%s)' % (path, a[0], len(ka), len(kb), str((ka if len(ka) > len(kb) else kb)[min(len(ka), len(kb))])[:60])
+    return '%s: %s vs %s' % (path, str(a)[:80], str(b)[:80])
+
+
 TABLE_DOCS = [
     '#table(columns: 2, [a], [b], [c], [d], [e])\n', '#table(columns: (2), [a], [b], [c], [d], [e])\n', '#table(columns: ((1fr, 1fr)), [a], [b], [c])\n',
     '#table(columns: 2, table .header[a][b], [c], [d], [e])\n', '#table(columns: 2, table. header[a][b], [c], [d], [e])\n', '#grid(columns: (1), [a], [b])\n',
@@ -144,6 +218,24 @@ MISC_DOCS = [
     '- a\n\n- b\n', '+ a\n  + b\n\n  c\n', '/ T : d\n', '= H\n== I\ntext\n', 'a *b* _c_ `d`\n', 'a \\\nb\n', '#[*a* ]\n', '#strong[ a ]\n', 'a #h(1em) b\n', 'a#h(1em)b\n',
     '#let x = a +\n b\n', '#let x = (a\n + b)\n', '#let x = a.b\n .c()\n', '#f(a)(b)(c)\n', '#f(a)\n(b)\n', '#let x = if a { b }\n else { c }\n', '#let x = not a\n', '#(-a)\n', '#( - a)\n',
 ]
+
+
+def corpus_docs(S):
+    """the hand-written corpus of tricky constructs, cut into the smallest runs of lines that parse without errors"""
+    import os
+    from .conserve import EXTRA_CORPUS
+    if not os.path.exists(EXTRA_CORPUS):
+        return []
+    docs = []
+    cur = ''
+    for line in open(EXTRA_CORPUS, encoding='utf-8').read().split('\n'):
+        cur += line + '\n'
+        if S.driver.call('erroneous', hexs(cur))[1] == '0':
+            docs.append(cur)
+            cur = ''
+        elif cur.count('\n') > 8:
+            cur = ''
+    return [d for d in docs if d.strip()]
 
 
 def explore(S, docs, tabs=(2,), prop='C03', widths=(0, 40, 1 << 30)):
@@ -199,7 +291,19 @@ def explore(S, docs, tabs=(2,), prop='C03', widths=(0, 40, 1 << 30)):
                     tree2 = parse(t1)
                     if tree2 is None:
                         S.absorb(m)
-                        ctx.must_hold(False, '%s:first-pass-output-does-not-parse' % prop, lambda mdl: dict(describe(mdl), first=t1))
+                        ctx.must_hold(False, '%s:output-does-not-parse' % ('C04' if prop in ('C01', 'C04') else prop), lambda mdl: dict(describe(mdl), first=t1))
+                        return
+                    if prop == 'C04':
+                        S.absorb(m)
+                        ctx.must_hold(True, 'C04:output-does-not-parse')
+                        ctx.witness('output parsed')
+                        return
+                    if prop == 'C01':
+                        S.absorb(m)
+                        n1, n2 = norm_tree(tree), norm_tree(tree2)
+                        diff = first_difference(n1, n2)
+                        ctx.must_hold(diff is None, 'C01:syntax-tree-changed', lambda mdl: dict(describe(mdl), first=t1, difference=diff))
+                        ctx.witness('trees compared')
                         return
                     root2 = deep.build(ctx, tree2, kt, counter, concrete_ws=True)
                     try:
@@ -232,10 +336,27 @@ def explore(S, docs, tabs=(2,), prop='C03', widths=(0, 40, 1 << 30)):
     return found, coverage
 
 
-def confirm(S, info):
-    """the same two passes on the real library at the widths the layouts stand for"""
+def confirm(S, info, prop='C03'):
+    """the same on the real library at the width of the task and a few others"""
     src = info['source']
     if S.driver.call('erroneous', hexs(src))[1] == '1':
+        return None
+    if prop in ('C01', 'C04'):
+        t_src = deep.tree_of(S, src)
+        for w in (info['width'], 0, 80, 40, 20, 1 << 20):
+            a = S.driver.call('format', hexs(src), w, info.get('tab', 2), info.get('reorder', 0))
+            if a[0] != 'ok':
+                continue
+            out = unhexs(a[1])
+            t_out = deep.tree_of(S, out)
+            if t_out is None:
+                return dict(api='Typstyle::format_content', source=src, width=w, tab=info.get('tab', 2), output=out,
+                            what='well-formed %s is formatted to text with syntax errors (width %d): %s' % (show(src), w, show(out)))
+            if prop == 'C01' and t_src is not None:
+                d = first_difference(norm_tree(t_src), norm_tree(t_out))
+                if d:
+                    return dict(api='Typstyle::format_content', source=src, width=w, tab=info.get('tab', 2), output=out, difference=d,
+                                what='the syntax tree of %s changes when formatted (width %d) to %s: %s' % (show(src), w, show(out), d))
         return None
     for w in (info['width'], 0, 80, 40, 20, 1 << 20):
         a = S.driver.call('format', hexs(src), w, info.get('tab', 2), info.get('reorder', 0))
@@ -261,12 +382,12 @@ def site_of(src):
 def report(S, prop, found):
     groups = {}
     for lab, info in found:
-        if lab.startswith(prop + ':'):
+        if lab.startswith(prop + ':') or (prop == 'C01' and lab.startswith('C04:')):
             groups.setdefault((lab, site_of(info.get('seed', ''))), []).append(info)
     for (lab, site), infos in sorted(groups.items()):
         hit = None
         for info in infos[:8]:
-            w = confirm(S, info)
+            w = confirm(S, info, prop)
             if w:
                 hit = (info, w)
                 break
